@@ -311,6 +311,32 @@ Lemma gen_ias15_reset_on_particle_change :
   ias15_reset_N_allocated_values = ["0"].
 Proof. vm_compute. repeat split. Qed.
 
+(* degenerate corners of the protocol model: a server that has no handler at all, an integrator with empty prologue / epilogue, and the
+   very first state; the theorems above quantify over all reachable states, these are the smallest instances *)
+Lemma protocol_corners :
+  wf false (system [] [[]] [] [] []) = true /\ wf true (system [] [[]] [] [] []) = true /\
+  serializing init = false /\ in_step init = false /\
+  (forall s, reach (system [] [[]] [] [] []) s -> serializing s = true -> in_step s = false).
+Proof.
+  repeat split; try reflexivity.
+  intros s R H. exact (served_at_boundary_gen (system [] [[]] [] [] []) s eq_refl R H).
+Qed.
+
+(* descriptor life cycle of the listening socket, over the regenerated table: it is opened in one place, and EVERY place that closes it
+   invalidates the stored number afterwards (frees / resets its holder or overwrites the member), so no path - including the error
+   paths of the server life cycle - can close the same number a second time after the kernel has handed it to someone else *)
+Definition closes_at_most_once (opens : list string) (closes : list (string * bool)) : bool :=
+  Nat.eqb (length opens) 1 && forallb snd closes && Nat.leb 1 (length closes).
+Lemma gen_listening_socket_closed_once :
+  listening_socket_open_sites = ["reb_server_start"] /\
+  listening_socket_close_sites = [("reb_simulation_stop_server", true)] /\
+  closes_at_most_once listening_socket_open_sites listening_socket_close_sites = true.
+Proof. vm_compute. repeat split. Qed.
+(* not vacuous: an extra close that leaves the number in place (e.g. in the bind-failure branch) is rejected *)
+Lemma extra_close_rejected :
+  closes_at_most_once ["reb_server_start"] [("reb_server_start", false); ("reb_simulation_stop_server", true)] = false.
+Proof. vm_compute. reflexivity. Qed.
+
 (* process-level hygiene of the server thread: no exit of the request loop closes a connection descriptor twice
    (fclose(fdopen(fd)) followed by close(fd) would close a descriptor that another thread may have just opened; fixed in /repo bc586ce) *)
 Lemma gen_server_single_close : server_double_close_sites = 0.
